@@ -298,4 +298,9 @@ MUTATIONS += [
     dict(id="r4i-dirichlet-transpose", file="cirkit/backend/torch/initializers.py", old="    tensor.copy_(torch.movedim(samples, -1, dim))", new="    tensor.copy_(torch.transpose(samples, dim, -1))", expect={"C17": ["R4i:cirkit.backend.torch.initializers.dirichlet_:dirichlet[rank=4,dim=1]"]}),
     dict(id="r4i-dirichlet-wrong-dim", file="cirkit/backend/torch/initializers.py", old="    tensor.copy_(torch.movedim(samples, -1, dim))", new="    tensor.copy_(torch.movedim(samples, -1, dim - 1))", expect={"C17": ["R4i:cirkit.backend.torch.initializers.dirichlet_"]}),
     dict(id="q-dirichlet-permute", file="cirkit/backend/torch/initializers.py", old="    tensor.copy_(torch.movedim(samples, -1, dim))", new="    order = list(range(len(shape) - 1))\n    order.insert(dim, len(shape) - 1)\n    tensor.copy_(samples.permute(order))", expect={}, quiet=True),
+    # ---- R6p: foreign tensors stay behind pointers
+    dict(id="r6p-fold-unwrap", file=COMP, old="        return TorchPointerParameter(in_folded_node, fold_idx=in_fold_idx)", new="        if in_fold_idx == list(range(in_folded_node.num_folds)):\n            return in_folded_node\n        return TorchPointerParameter(in_folded_node, fold_idx=in_fold_idx)", expect={"C10": ["R6p:cirkit.backend.torch.compiler._fold_parameter_nodes_group"], "C19": ["R6p:cirkit.backend.torch.compiler._fold_parameter_nodes_group"]}),
+    dict(id="r6p-pointer-forwards-reset", file=TNODES, old="    def deref(self) -> TorchTensorParameter:\n        return self._parameter\n", new="    def deref(self) -> TorchTensorParameter:\n        return self._parameter\n\n    def reset_parameters(self) -> None:\n        self._parameter.reset_parameters()\n", expect={"C10": ["R6p:cirkit.backend.torch.parameters.nodes.TorchPointerParameter.reset_parameters"], "C19": ["R6p:cirkit.backend.torch.parameters.nodes.TorchPointerParameter.reset_parameters"]}),
+    dict(id="r6p-reference-compiles-to-tensor", file=RPAR, old="    return TorchPointerParameter(compiled_p, fold_idx=fold_idx)", new="    if fold_idx is None or compiled_p.num_folds == 1:\n        return compiled_p\n    return TorchPointerParameter(compiled_p, fold_idx=fold_idx)", expect={"C10": ["R6p:cirkit.backend.torch.rules.parameters.compile_reference_parameter"], "C19": ["R6p:cirkit.backend.torch.rules.parameters.compile_reference_parameter"]}, allow_others=True),
+    dict(id="q-r6p-pointer-kwarg-checked", quiet=True, file=COMP, old="        return TorchPointerParameter(in_folded_node, fold_idx=in_fold_idx)", new="        assert isinstance(in_folded_node, TorchTensorParameter) and in_folded_node.num_folds >= len(group)\n        ptr = TorchPointerParameter(parameter=in_folded_node, fold_idx=in_fold_idx)\n        return ptr", expect={}),
 ]
